@@ -31,6 +31,7 @@ REPS = (KEYWORDS + [s for s in reflex.SYMBOLS if s != b'::'] +
          b'1', b'12', b'1.', b'.5', b'1.5', b'1e5', b'1e-5', b'1e+5', b'1E5', b'0x1f', b'0X1F', b'0x1.8', b'0x.8',
          b'0b1', b'0B1', b'0b1.1', b'0b.1',
          b'"a"', b"'a'", b'"\\""', b'[[a]]', b'[=[a]=]', b'"\\65"', b'""',
+         b'"a\\z  "', b'" b"', b"'\\z'", b'"\\x41\\\n c"', b'[[ d]]',
          b'::a::', b'-- c\n', b'//c\n', b'--[[c]]', b'--[=[c]=]', b'\n', b'\r\n'])
 
 
